@@ -1621,6 +1621,30 @@ static ASSUMERec ASSUME75s[] = {
 };
 #define ASSUME75Count (sizeof(ASSUME75s) / sizeof(*ASSUME75s))
 
+/* the prime of the shadow register pairs XA', BC', DE', HL' opens no character constant */
+
+static Boolean QualifyQuote_75K0(char const* pStart, char const* pQuotePos) {
+    static char const* const Regs[] = {"XA", "BC", "DE", "HL", NULL};
+    char const* const*       pReg;
+    char                     Next = pQuotePos[1];
+
+    if ((*pQuotePos != '\'') || (pQuotePos < pStart + 2)) {
+        return True;
+    }
+    if ((Next != '\0') && !as_isspace(Next) && (Next != ',') && (Next != ';')) {
+        return True;
+    }
+    if ((pQuotePos - 2 > pStart) && !as_isspace(pQuotePos[-3]) && (pQuotePos[-3] != ',')) {
+        return True;
+    }
+    for (pReg = Regs; *pReg; pReg++) {
+        if (!as_strncasecmp(pQuotePos - 2, *pReg, 2)) {
+            return False;
+        }
+    }
+    return True;
+}
+
 static void SwitchTo_75K0(void* pUser) {
     Boolean Err;
     Word    ROMEnd;
@@ -1653,6 +1677,7 @@ static void SwitchTo_75K0(void* pUser) {
     ASSUMERecCnt = ASSUME75Count;
 
     MakeCode   = MakeCode_75K0;
+    QualifyQuote = QualifyQuote_75K0;
     IsDef      = IsDef_75K0;
     SwitchFrom = SwitchFrom_75K0;
     InitFields();
